@@ -99,4 +99,164 @@ theorem add_sound (a b : SI) (x y : Nat) (hbits : a.bits = b.bits) (ha : a.WF) (
         rw [if_pos h1] at hx2; rw [if_pos h2] at hy2
         omega
 
+/-- closure: `add` returns a well-formed interval of the same width -/
+theorem add_WF (a b : SI) (ha : a.WF) (hb : b.WF) (hbits : a.bits = b.bits) :
+    (a.add b).WF ∧ (a.add b).bits = a.bits := by
+  unfold SI.add
+  by_cases ov : wrappedOverflowAdd a b = true
+  · simp only [ov, if_true]; exact ⟨top_WF _ ha.1, top_bits _⟩
+  · have ov' : wrappedOverflowAdd a b = false := by simpa using ov
+    simp only [ov', Bool.false_eq_true, if_false, ← hbits, Nat.max_self]
+    refine ⟨new_WF _ _ _ _ ha.1 ?_, new_bits _ _ _ _⟩
+    intro hg
+    have h1 := ha.2.2.2.1 (Nat.eq_zero_of_gcd_eq_zero_left hg)
+    have h2 := hb.2.2.2.1 (Nat.eq_zero_of_gcd_eq_zero_right hg)
+    rw [h1, h2]
+
+/-! ### sub -/
+
+theorem sub_mod_cases (a b m : Nat) (ha : a < m) (hb : b < m) :
+    (a + m - b) % m = if b ≤ a then a - b else a + m - b := by
+  split
+  · have : a + m - b = (a - b) + m := by omega
+    rw [this, Nat.add_mod_right, Nat.mod_eq_of_lt (by omega)]
+  · exact Nat.mod_eq_of_lt (by omega)
+
+theorem modSub_nat' (a b w : Nat) (ha : a < 2 ^ w) (hb : b < 2 ^ w) :
+    modSub (a : Int) (b : Int) w = (a + 2 ^ w - b) % 2 ^ w := by
+  rw [modSub_nat a b w ha hb, sub_mod_cases a b _ ha hb]
+  unfold cd
+  split_ifs <;> omega
+
+/-- distances under subtraction: `(x − y) − (l1 − l2) = (x − l1) + (l2 − y)` while the sum stays below `m` -/
+theorem cd_sub (m l1 x y l2 : Nat) (h1 : l1 < m) (hx : x < m) (hy : y < m) (h2 : l2 < m)
+    (hs : cd m l1 x + cd m y l2 < m) :
+    cd m ((l1 + m - l2) % m) ((x + m - y) % m) = cd m l1 x + cd m y l2 := by
+  rw [sub_mod_cases _ _ _ h1 h2, sub_mod_cases _ _ _ hx hy]
+  unfold cd at hs ⊢
+  split_ifs at hs ⊢ <;> omega
+
+theorem cd_between (m o y z : Nat) (ho : o < m) (hy : y < m) (hz : z < m) (h : cd m o y ≤ cd m o z) :
+    cd m y z = cd m o z - cd m o y := by
+  unfold cd at h ⊢
+  split_ifs at h ⊢ <;> omega
+
+theorem cd_add_right (m l k : Nat) (hl : l < m) (hk : k < m) : cd m l ((l + k) % m) = k := by
+  rw [add_mod_cases _ _ _ hl hk]
+  unfold cd
+  split_ifs <;> omega
+
+/-- the last member: at distance `span / stride * stride` from the lower bound -/
+theorem lastMember_facts (b : SI) (hb : b.WF) :
+    b.lastMember < 2 ^ b.bits ∧
+    cd (2 ^ b.bits) b.lb b.lastMember = (if b.stride = 0 then 0 else cd (2 ^ b.bits) b.lb b.ub / b.stride * b.stride) := by
+  obtain ⟨h0, hl, hu, hs⟩ := hb
+  have hm := two_pow_pos' b.bits
+  unfold SI.lastMember
+  by_cases hz : b.stride = 0
+  · simp only [hz, if_true]; exact ⟨hl, cd_self _ _⟩
+  · simp only [hz, if_false]
+    rw [modSub_nat _ _ _ hu hl, modAdd_nat]
+    have hL : cd (2 ^ b.bits) b.lb b.ub / b.stride * b.stride < 2 ^ b.bits := by
+      have := Nat.div_mul_le_self (cd (2 ^ b.bits) b.lb b.ub) b.stride
+      have := cd_lt _ _ _ hl hu
+      omega
+    exact ⟨Nat.mod_lt _ hm, cd_add_right _ _ _ hl hL⟩
+
+/-- a member of `b` is at most as far from the lower bound as the last member -/
+theorem mem_le_last (span s d : Nat) (h1 : d ≤ span) (h2 : if s = 0 then d = 0 else d % s = 0) :
+    d ≤ (if s = 0 then 0 else span / s * s) ∧ s ∣ (if s = 0 then 0 else span / s * s) - d := by
+  by_cases hz : s = 0
+  · simp only [hz, if_true] at h2 ⊢; subst h2; simp
+  · simp only [hz, if_false] at h2 ⊢
+    have hsp : 0 < s := Nat.pos_of_ne_zero hz
+    obtain ⟨k, hk⟩ := Nat.dvd_of_mod_eq_zero h2
+    subst hk
+    have hkle : k ≤ span / s := by
+      rw [Nat.le_div_iff_mul_le hsp]; rw [Nat.mul_comm]; exact h1
+    constructor
+    · calc s * k = k * s := Nat.mul_comm _ _
+        _ ≤ span / s * s := Nat.mul_le_mul_right _ hkle
+    · refine ⟨span / s - k, ?_⟩
+      rw [Nat.mul_sub, Nat.mul_comm s (span / s)]
+
+/-- **`sub` is sound** (the subtrahend need not be aligned: its last member anchors the result) -/
+theorem sub_sound (a b : SI) (x y : Nat) (hbits : a.bits = b.bits) (ha : a.WF) (hb : b.WF)
+    (hx : a.mem x) (hy : b.mem y) : (a.sub b).mem ((x + 2 ^ a.bits - y) % 2 ^ a.bits) := by
+  have hm := two_pow_pos' a.bits
+  unfold SI.sub
+  by_cases ov : wrappedOverflowAdd a b = true
+  · simp only [ov, if_true]
+    rw [mem_top]; exact Nat.mod_lt _ hm
+  · have ov' : wrappedOverflowAdd a b = false := by simpa using ov
+    have hsum := overflow_false a b ha hb hbits ov'
+    simp only [ov', Bool.false_eq_true, if_false, ← hbits, Nat.max_self]
+    obtain ⟨hlastlt, hlastcd⟩ := lastMember_facts b hb
+    rw [← hbits] at hlastlt hlastcd
+    obtain ⟨ha0, hal, hau, has⟩ := ha
+    obtain ⟨hb0, hbl, hbu, hbs⟩ := hb
+    rw [← hbits] at hbl hbu
+    rw [mem_iff _ _ hal hau] at hx
+    rw [mem_iff _ _ (by rw [← hbits]; exact hbl) (by rw [← hbits]; exact hbu), ← hbits] at hy
+    obtain ⟨_, hxl, hx1, hx2⟩ := hx
+    obtain ⟨_, hyl, hy1, hy2⟩ := hy
+    obtain ⟨hle, hdv⟩ := mem_le_last _ _ _ hy1 hy2
+    rw [← hlastcd] at hle hdv
+    have hLle : cd (2 ^ a.bits) b.lb b.lastMember ≤ cd (2 ^ a.bits) b.lb b.ub := by
+      rw [hlastcd]; split_ifs
+      · omega
+      · exact Nat.div_mul_le_self _ _
+    have hbtw := cd_between _ _ _ _ hbl hyl hlastlt hle
+    have hbtw0 := cd_between _ _ _ _ hbl hbl hlastlt (by rw [cd_self]; omega)
+    rw [cd_self] at hbtw0
+    rw [mem_new, modSub_nat' _ _ _ hal hlastlt, modSub_nat' _ _ _ hau hbl,
+      imod_of_lt _ _ (Nat.mod_lt _ hm), imod_of_lt _ _ (Nat.mod_lt _ hm)]
+    have key1 := cd_sub _ _ _ _ _ hal hxl hyl hlastlt (by omega)
+    have key2 := cd_sub _ _ _ _ _ hal hau hbl hlastlt (by omega)
+    refine ⟨Nat.mod_lt _ hm, ?_, ?_⟩
+    · rw [key1, key2]; omega
+    · rw [key1, hbtw]
+      apply stride_cond_of_dvd
+      · exact Nat.dvd_add (dvd_of_stride _ _ _ (Nat.gcd_dvd_left _ _) hx2) (Nat.dvd_trans (Nat.gcd_dvd_right _ _) hdv)
+      · intro hg
+        have h1 := Nat.eq_zero_of_gcd_eq_zero_left hg
+        have h2 := Nat.eq_zero_of_gcd_eq_zero_right hg
+        rw [if_pos h1] at hx2; rw [if_pos h2] at hy2
+        have : cd (2 ^ a.bits) b.lb b.lastMember = 0 := by rw [hlastcd, if_pos h2]
+        omega
+
+theorem sub_WF (a b : SI) (ha : a.WF) (hb : b.WF) (hbits : a.bits = b.bits) :
+    (a.sub b).WF ∧ (a.sub b).bits = a.bits := by
+  unfold SI.sub
+  by_cases ov : wrappedOverflowAdd a b = true
+  · simp only [ov, if_true]; exact ⟨top_WF _ ha.1, top_bits _⟩
+  · have ov' : wrappedOverflowAdd a b = false := by simpa using ov
+    simp only [ov', Bool.false_eq_true, if_false, ← hbits, Nat.max_self]
+    refine ⟨new_WF _ _ _ _ ha.1 ?_, new_bits _ _ _ _⟩
+    intro hg
+    have h1 := ha.2.2.2.1 (Nat.eq_zero_of_gcd_eq_zero_left hg)
+    have h2z := Nat.eq_zero_of_gcd_eq_zero_right hg
+    have h2 := hb.2.2.2.1 h2z
+    have hlast : b.lastMember = b.lb := by unfold SI.lastMember; simp [h2z]
+    rw [hlast, h1, h2]
+
+/-- **`neg` (and, since the repair, unary minus) is sound**: `0 − x` -/
+theorem neg_sound (a : SI) (x : Nat) (ha : a.WF) (hx : a.mem x) : a.neg.mem ((2 ^ a.bits - x) % 2 ^ a.bits) := by
+  unfold SI.neg
+  have hz : (SI.new a.bits 0 0 0).WF := new_WF _ _ _ _ ha.1 (fun _ => rfl)
+  have hzb : (SI.new a.bits 0 0 0).bits = a.bits := new_bits _ _ _ _
+  have hzm : (SI.new a.bits 0 0 0).mem 0 := by
+    rw [mem_new, imod_zero]; simp [cd_self, two_pow_pos']
+  have := sub_sound (SI.new a.bits 0 0 0) a 0 x hzb hz ha hzm hx
+  rw [hzb] at this
+  simpa using this
+
+theorem neg_WF (a : SI) (ha : a.WF) : a.neg.WF ∧ a.neg.bits = a.bits := by
+  unfold SI.neg
+  have hz : (SI.new a.bits 0 0 0).WF := new_WF _ _ _ _ ha.1 (fun _ => rfl)
+  have hzb : (SI.new a.bits 0 0 0).bits = a.bits := new_bits _ _ _ _
+  have := sub_WF (SI.new a.bits 0 0 0) a hz ha hzb
+  rw [hzb] at this
+  exact this
+
 end Claripy.VSA
